@@ -2,9 +2,10 @@
    Statements only; every proof is `exact <lemma of HooksProofs>`.  The model (Hooks.v) is a
    transliteration of request_hook/{before,after,before_and_after}.rs; the correspondence check
    ties it to the code on every run.  All statements are for every tree of wrappers (any
-   nesting, any depth), every chain length, every initial context and request, and every
-   scripted hook behaviour (context mutation, failure, result rewriting). *)
-From Coq Require Import List NArith Arith.
+   nesting, any depth), every chain length, every initial context (span id and deadline, elapsed
+   or not) and request, and every scripted hook behaviour (span-id and deadline mutation, failure,
+   result rewriting).  A context is a pair (span id, deadline - T0 in ms). *)
+From Coq Require Import List NArith ZArith Arith.
 Import ListNotations.
 From TarpcV Require Import Hooks HooksProofs.
 Local Open Scope N_scope.
@@ -80,29 +81,73 @@ Proof. exact c19_before_after. Qed.
 Theorem C19_handler_at_most_once : forall s c r, (count_handler (fst (serve s c r)) <= 1)%nat.
 Proof. exact c19_handler_at_most_once. Qed.
 
+(* The deadline is part of the context every hook and the handler is given: in front of the
+   handler, if no hook of the chain fails -- whatever the deadline is or becomes, elapsed or not --
+   every hook runs and the handler is called with the context (deadline included) the chain left. *)
+Theorem C19_handler_sees_chain_ctx : forall l h c r,
+  first_fail (blist_to_list l) c r = None ->
+  serve (BeforeList l (Base h)) c r
+  = (chain_events (blist_to_list l) c r ++ [EHandler (h_id h) (chain_ctx (blist_to_list l) c r) r],
+     handler_eff h (chain_ctx (blist_to_list l) c r) r).
+Proof. exact c19_handler_sees_chain_ctx. Qed.
+
+(* hooks that leave the deadline alone hand it on unchanged *)
+Theorem C19_chain_keeps_deadline : forall hs c r,
+  (forall h, In h hs -> b_deff h = DKeep) -> c_dl (chain_ctx hs c r) = c_dl c.
+Proof. exact c19_chain_keeps_deadline. Qed.
+
+(* Nothing in the wrappers depends on the deadline's value: in a composition whose hooks and
+   handler neither read nor change the deadline (blind), two calls that differ only in the deadline
+   produce the same events (deadline erased) and the same result. *)
+Theorem C19_deadline_irrelevant : forall s c1 c2 r,
+  blind s = true -> c_span c1 = c_span c2 ->
+  map erase (fst (serve s c1 r)) = map erase (fst (serve s c2 r))
+  /\ snd (serve s c1 r) = snd (serve s c2 r).
+Proof. exact c19_deadline_irrelevant. Qed.
+
 (* non-vacuity: a composition with a mid-chain failure seen and rewritten by an outer after-hook,
-   under a before-and-after hook; and the monitor rejects the same events with two hooks swapped,
-   a handler event after the failure, and a missing after-event. *)
-Definition ex_b (i : nat) ce fe := {| b_id := i; b_ceff := ce; b_feff := fe |}.
+   under a before-and-after hook; the monitor rejects the same events with two hooks swapped,
+   a handler event after the failure, and a missing after-event.  Second: a call that arrives
+   with an elapsed deadline runs the whole list and returns the LAST hook's own error; the monitor
+   rejects a trace that stops after the first hook with a manufactured error. *)
+Definition ex_b (i : nat) ce fe := {| b_id := i; b_ceff := ce; b_deff := DKeep; b_feff := fe |}.
 Definition ex_tree : serveT :=
-  BeforeAfter {| ba_b := ex_b 1 (CAdd 1) FNo; ba_a := {| a_id := 2; a_ceff := CKeep; a_reff := RMapOk 5 |} |}
+  BeforeAfter {| ba_b := ex_b 1 (CAdd 1) FNo;
+                 ba_a := {| a_id := 2; a_ceff := CKeep; a_deff := DKeep; a_reff := RMapOk 5 |} |}
     (After
        (serving (then_ (then_ (then_ BNil (ex_b 3 (CAdd 10) FNo)) (ex_b 4 (CSet 7) (FCtxGe 11 42)))
                        (ex_b 5 CKeep FNo))
                 (Base {| h_id := 0; h_eff := HPlus 1 |}))
-       {| a_id := 6; a_ceff := CKeep; a_reff := RRecover 100 |}).
+       {| a_id := 6; a_ceff := CKeep; a_deff := DKeep; a_reff := RRecover 100 |}).
+Definition d9 : Z := 9000%Z.
 Example C19_nonvacuous :
-  serve ex_tree 0 9
-  = ([EBefore 1 0 9; EBefore 3 1 9; EBefore 4 11 9; EAfter 6 1 (RErr 42); EAfter 2 1 (ROk 100)],
+  serve ex_tree (0, d9) 9
+  = ([EBefore 1 (0, d9) 9; EBefore 3 (1, d9) 9; EBefore 4 (11, d9) 9; EAfter 6 (1, d9) (RErr 42);
+      EAfter 2 (1, d9) (ROk 100)],
      ROk 105)
-  /\ c19_ok (ex_tree, 0, 9)
-       ([EBefore 1 0 9; EBefore 4 11 9; EBefore 3 1 9; EAfter 6 1 (RErr 42); EAfter 2 1 (ROk 100)],
-        ROk 105) = false
-  /\ c19_ok (ex_tree, 0, 9)
-       ([EBefore 1 0 9; EBefore 3 1 9; EBefore 4 11 9; EHandler 0 7 9; EAfter 6 1 (RErr 42);
-         EAfter 2 1 (ROk 100)], ROk 105) = false
-  /\ c19_ok (ex_tree, 0, 9)
-       ([EBefore 1 0 9; EBefore 3 1 9; EBefore 4 11 9; EAfter 2 1 (RErr 42)], RErr 42) = false.
+  /\ c19_ok (ex_tree, (0, d9), 9)
+       ([EBefore 1 (0, d9) 9; EBefore 4 (11, d9) 9; EBefore 3 (1, d9) 9; EAfter 6 (1, d9) (RErr 42);
+         EAfter 2 (1, d9) (ROk 100)], ROk 105) = false
+  /\ c19_ok (ex_tree, (0, d9), 9)
+       ([EBefore 1 (0, d9) 9; EBefore 3 (1, d9) 9; EBefore 4 (11, d9) 9; EHandler 0 (7, d9) 9;
+         EAfter 6 (1, d9) (RErr 42); EAfter 2 (1, d9) (ROk 100)], ROk 105) = false
+  /\ c19_ok (ex_tree, (0, d9), 9)
+       ([EBefore 1 (0, d9) 9; EBefore 3 (1, d9) 9; EBefore 4 (11, d9) 9; EAfter 2 (1, d9) (RErr 42)],
+        RErr 42) = false.
+Proof. vm_compute. repeat split; reflexivity. Qed.
+
+Definition ex_list : serveT :=
+  serving (then_ (then_ (then_ BNil (ex_b 1 (CAdd 1) FNo))
+                        {| b_id := 2; b_ceff := CKeep; b_deff := DSet 0; b_feff := FNo |})
+                 (ex_b 3 CKeep (FFail 13)))
+          (Base {| h_id := 0; h_eff := HDl |}).
+Definition past : Z := (-60000)%Z.
+Example C19_nonvacuous_elapsed_deadline :
+  serve ex_list (5, past) 9
+  = ([EBefore 1 (5, past) 9; EBefore 2 (6, past) 9; EBefore 3 (6, 0%Z) 9], RErr 13)
+  /\ c19_ok (ex_list, (5, past), 9) ([EBefore 1 (5, past) 9], RErr 999999999) = false
+  /\ c19_ok (ex_list, (5, past), 9)
+       ([EBefore 1 (5, past) 9; EBefore 2 (6, past) 9; EBefore 3 (6, past) 9], RErr 13) = false.
 Proof. vm_compute. repeat split; reflexivity. Qed.
 
 Print Assumptions C19_monitor.
@@ -115,3 +160,6 @@ Print Assumptions C19_after_once.
 Print Assumptions C19_after_sees_inner_error.
 Print Assumptions C19_before_after.
 Print Assumptions C19_handler_at_most_once.
+Print Assumptions C19_handler_sees_chain_ctx.
+Print Assumptions C19_chain_keeps_deadline.
+Print Assumptions C19_deadline_irrelevant.
